@@ -270,7 +270,9 @@ def run_config(contract, cfg, facets="VCSTRN", prime=None, tier="quick", max_pat
     res["sig"] = next(iter(res["sigs"].values()))[0] if res["sigs"] else None
     res["sigs"] = len(res["sigs"])
     res["stubs"] = sorted(res["stubs"])
-    if contract.covers_normal and res["normal_paths"] == 0 and not res["engine_errors"]:
+    if cfg.get("raises_only"):
+        pass
+    elif contract.covers_normal and res["normal_paths"] == 0 and not res["engine_errors"]:
         res["obligations"].append(dict(name="cover.normal_exit", path="*", verdict="refuted", backend="structural",
                                        s=0.0, detail="no path returns normally in cfg %r" % (cfg,)))
     elif contract.covers_normal:
